@@ -19,6 +19,12 @@ structure PaintAttrs (α : Type) where
   strokeWidth : α
 deriving Repr
 
+/-- `_clamp(value)` / `clamp_opacity(value)`: `max(min(value, 1.0), 0.0)` — an opacity outside [0, 1] means 0 or 1, settled
+    before anything is multiplied -/
+def clampOpacity (v : Float) : Float :=
+  let m := if (1.0 : Float) < v then (1.0 : Float) else v
+  if m < (0.0 : Float) then (0.0 : Float) else m
+
 section
 variable {α : Type} [Mul α] [OfNat α 0] [BEq α] [LT α] [DecidableLT α]
 
